@@ -235,3 +235,541 @@ def c04_families(quick):
         gsame(sk, [0, 1])
         out.append(sk)
     return out
+
+
+# ---------------------------------------------------------------------------
+# C02: memory operands
+
+KW_BITS = {"byte": 8, "word": 16, "dword": 32, "qword": 64}
+
+
+def quick_shapes():
+    sh = [MemShape("b"), MemShape("b+d"), MemShape("b-d"), MemShape("b+i"), MemShape("d"), MemShape("-d"),
+          MemShape("b+d", dstyle="dec"), MemShape("b+i*s-d", 4, dstyle="dec"),
+          MemShape("b+i*s", 1), MemShape("b+i*s", 8), MemShape("b+s*i", 2),
+          MemShape("s*i", 1), MemShape("s*i", 2), MemShape("s*i", 4),
+          MemShape("b+i*s+d", 2), MemShape("b+s*i-d", 8),
+          MemShape("s*i+d", 1), MemShape("s*i+d", 8), MemShape("s*i-d", 2), MemShape("s*i-d", 4)]
+    return sh
+
+
+def all_shapes():
+    sh = []
+    for kind in ALL_SHAPE_KINDS:
+        scales = (1, 2, 4, 8) if "s" in kind else (1,)
+        styles = ("hex", "dec") if "d" in kind else ("hex",)
+        for s in scales:
+            for st in styles:
+                sh.append(MemShape(kind, s, st))
+    return sh
+
+
+def mem_form(name, fam, mn, xop, vex, opds, shape, kw, osize=None, symmetric=False):
+    """opds: list of ('reg', mask, letter) | ('mem', msize C-expr or None->from kw) | ('cl',) | ('imm8',)
+    osize: C expression for the operation size check (or None)"""
+    sk = Skel("%s.%s%s" % (name, shape.label(), ("." + kw) if kw else ""), fam, mn)
+    sk.t(mn + " ")
+    checks = []
+    n = 0
+    memvar = None
+    for i, o in enumerate(opds):
+        if i:
+            sk.t(", ")
+        if o[0] == "reg":
+            k = sk.reg(o[1], o[2] if len(o) > 2 else "r")
+            sk.treg(k)
+            checks.append(("reg", n, k))
+            n += 1
+        elif o[0] == "mem":
+            memvar, b, ix = add_mem(sk, shape, kw)
+            mem_validity(sk, memvar, shape)
+            checks.append(("mem", n, o[1]))
+            n += 1
+        elif o[0] == "cl":
+            sk.t("cl")
+            checks.append(("cl", n))
+            n += 1
+        elif o[0] == "imm8":
+            kn = sk.num("$ <= 0x7f")
+            sk.tnum(kn, "hex")
+            checks.append(("imm8", n, kn))
+            n += 1
+    chk_op(sk, xop, vex)
+    chk_nopd(sk, n)
+    if symmetric:
+        # xchg r, [m]: the architecture's only form is (r/m, r); either operand order denotes the same exchange
+        checks = [(c[0], 1 - c[1]) + tuple(c[2:]) for c in checks]
+    for c in checks:
+        if c[0] == "reg":
+            chk_reg(sk, c[1], c[2])
+        elif c[0] == "mem":
+            ms = c[2] if c[2] is not None else str(KW_BITS[kw])
+            chk_mem(sk, c[1], memvar, ms)
+        elif c[0] == "cl":
+            sk.post.append('CHECK(D.opd[%d].kind == XK_REG && D.opd[%d].rc == RC_GPR8 && D.opd[%d].num == 1, "count register is cl");' % (c[1], c[1], c[1]))
+        elif c[0] == "imm8":
+            sk.post.append('CHECK(D.opd[%d].kind == XK_IMM && (D.opd[%d].imm & 0xff) == (long)N%d, "8-bit immediate carries the written value");' % (c[1], c[1], c[2]))
+    if osize:
+        sk.post.append('CHECK(D.osize == (%s), "operand size as written");' % osize)
+        sk.rexw = "(%s) == 64" % osize
+    sk.meta["class"] = name
+    return sk
+
+
+def kw_mask(kw):
+    return {"byte": G8, "word": G16, "dword": G32, "qword": G64}[kw]
+
+
+def c02_classes(quick):
+    """list of (class name, builder(shape) -> [Skel])"""
+    cls = []
+
+    def add(name, fn):
+        cls.append((name, fn))
+
+    # integer MR / RM; register gives the size; also with the matching keyword
+    def int_mr(mn, xop):
+        def fn(sh, kws):
+            out = [mem_form("c02.%s.mr" % mn, "int.mr", mn, xop, 0, [("mem", "vf_regsize(R%d)" % rslot(sh)), ("reg", GALL)], sh, None,
+                            "vf_regsize(R%d)" % rslot(sh))]
+            for kw in kws:
+                out.append(mem_form("c02.%s.mr" % mn, "int.mr", mn, xop, 0, [("mem", None), ("reg", kw_mask(kw))], sh, kw, str(KW_BITS[kw])))
+            return out
+        return fn
+
+    def int_rm(mn, xop, mask=GALL):
+        def fn(sh, kws):
+            sym = mn == "xchg"
+            out = [mem_form("c02.%s.rm" % mn, "int.rm", mn, xop, 0, [("reg", mask), ("mem", "vf_regsize(R0)")], sh, None, "vf_regsize(R0)", symmetric=sym)]
+            for kw in kws:
+                if mask != GALL and kw == "byte":
+                    continue
+                out.append(mem_form("c02.%s.rm" % mn, "int.rm", mn, xop, 0, [("reg", kw_mask(kw)), ("mem", None)], sh, kw, str(KW_BITS[kw]), symmetric=sym))
+            return out
+        return fn
+
+    def rslot(sh):
+        return (1 if sh.has_base() else 0) + (1 if sh.has_index() else 0)
+
+    int_mr_list = list(F.ALU.items()) + [("mov", "XOP_MOV"), ("test", "XOP_TEST")]
+    int_rm_list = list(F.ALU.items()) + [("mov", "XOP_MOV"), ("xchg", "XOP_XCHG")]
+    for mn, xop in (int_mr_list if not quick else [("mov", "XOP_MOV")]):
+        add("int.mr." + mn, int_mr(mn, xop))
+    for mn, xop in (int_rm_list if not quick else [("add", "XOP_ADD"), ("xchg", "XOP_XCHG")]):
+        add("int.rm." + mn, int_rm(mn, xop))
+    cm = [("cmov" + s, "(XOP_CMOVCC + %d)" % F.CC[s]) for s in F.CMOV_SUFFIXES]
+    for mn, xop in (cm + [("imul", "XOP_IMUL")] if not quick else [("cmovne", "(XOP_CMOVCC + 5)")]):
+        add("int.rm." + mn, int_rm(mn, xop, GV))
+
+    # unary M with keyword
+    def unary(mn, xop):
+        def fn(sh, kws):
+            return [mem_form("c02.%s.m" % mn, "int.m", mn, xop, 0, [("mem", None)], sh, kw, str(KW_BITS[kw])) for kw in (kws or ["qword"])]
+        return fn
+    for mn, xop in (F.UNARY.items() if not quick else [("neg", "XOP_NEG")]):
+        add("int.m." + mn, unary(mn, xop))
+
+    def lea(sh, kws):
+        return [mem_form("c02.lea.rm", "int.lea", "lea", "XOP_LEA", 0, [("reg", GV), ("mem", "0")], sh, None, "vf_regsize(R0)")]
+    add("int.lea", lea)
+
+    def movzx(sh, kws):
+        out = []
+        for kw in ("byte", "word"):
+            sk = mem_form("c02.movzx.rm", "int.movzx", "movzx", "XOP_MOVZX", 0, [("reg", GV), ("mem", None)], sh, kw, "vf_regsize(R0)")
+            sk.decl.append("ASSUME(vf_regsize(R0) > %d);" % KW_BITS[kw])
+            out.append(sk)
+        return out
+    add("int.movzx", movzx)
+
+    def byteopd(mn, xop, kwopt):
+        def fn(sh, kws):
+            return [mem_form("c02.%s.m" % mn, "int.byteopd", mn, xop, 0, [("mem", "8" if mn.startswith("set") else "0")], sh, kw)
+                    for kw in kwopt]
+        return fn
+    sets = [("set" + s, "(XOP_SETCC + %d)" % F.CC[s]) for s in F.SET_SUFFIXES]
+    for mn, xop in (sets if not quick else [("setne", "(XOP_SETCC + 5)")]):
+        add("int.m." + mn, byteopd(mn, xop, [None, "byte"]))
+    for mn, xop in ([("clflush", "XOP_CLFLUSH")] + list(F.PREFETCH.items()) if not quick else [("clflush", "XOP_CLFLUSH")]):
+        add("int.m." + mn, byteopd(mn, xop, [None]))
+
+    def push(sh, kws):
+        return [mem_form("c02.push.m", "int.push", "push", "XOP_PUSH", 0, [("mem", "64")], sh, kw, "64") for kw in (None, "qword")]
+    add("int.push", push)
+
+    def shift_cl(mn, xop):
+        def fn(sh, kws):
+            return [mem_form("c02.%s.m_cl" % mn, "int.shift", mn, xop, 0, [("mem", None), ("cl",)], sh, kw, str(KW_BITS[kw])) for kw in (kws or ["dword"])]
+        return fn
+    for mn, xop in (F.SHIFT_CL.items() if not quick else [("shl", "XOP_SHL")]):
+        add("int.shiftcl." + mn, shift_cl(mn, xop))
+
+    def shld_cl(sh, kws):
+        return [mem_form("c02.shld.mr_cl", "int.shld", "shld", "XOP_SHLD", 0, [("mem", "vf_regsize(R%d)" % rslot(sh)), ("reg", GV), ("cl",)], sh, None,
+                         "vf_regsize(R%d)" % rslot(sh))]
+    add("int.shld_cl", shld_cl)
+
+    def shxd_imm(mn, xop):
+        def fn(sh, kws):
+            return [mem_form("c02.%s.mri" % mn, "int.shld", mn, xop, 0, [("mem", "vf_regsize(R%d)" % rslot(sh)), ("reg", GV), ("imm8",)], sh, None,
+                             "vf_regsize(R%d)" % rslot(sh))]
+        return fn
+    add("int.shld_imm", shxd_imm("shld", "XOP_SHLD"))
+    if not quick:
+        add("int.shrd_imm", shxd_imm("shrd", "XOP_SHRD"))
+
+    # BMI / ADX
+    def bmi_rmv(mn, xop):
+        def fn(sh, kws):
+            sk = mem_form("c02.%s.rmr" % mn, "bmi.rmr", mn, xop, 1, [("reg", GY), ("mem", "vf_regsize(R0)"), ("reg", GY)], sh, None)
+            sk.decl.append("ASSUME(vf_regsize(R0) == vf_regsize(R%d));" % (sk.nreg - 1))
+            return [sk]
+        return fn
+    for mn, xop in (F.BMI_RMV.items() if not quick else [("bextr", "XOP_BEXTR")]):
+        add("bmi.rmr." + mn, bmi_rmv(mn, xop))
+
+    def mulx(sh, kws):
+        sk = mem_form("c02.mulx.rrm", "bmi.rrm", "mulx", "XOP_MULX", 1, [("reg", GY), ("reg", GY), ("mem", "vf_regsize(R0)")], sh, None)
+        sk.decl.append("ASSUME(vf_regsize(R0) == vf_regsize(R1));")
+        return [sk]
+    add("bmi.rrm.mulx", mulx)
+
+    def rorx(sh, kws):
+        return [mem_form("c02.rorx.rmi", "bmi.rmi", "rorx", "XOP_RORX", 1, [("reg", GY), ("mem", "vf_regsize(R0)"), ("imm8",)], sh, None)]
+    add("bmi.rmi.rorx", rorx)
+
+    def adx(mn, xop):
+        def fn(sh, kws):
+            return [mem_form("c02.%s.rm" % mn, "adx.rm", mn, xop, 0, [("reg", GY), ("mem", "vf_regsize(R0)")], sh, None)]
+        return fn
+    for mn, xop in ((("adcx", "XOP_ADCX"), ("adox", "XOP_ADOX")) if not quick else (("adcx", "XOP_ADCX"),)):
+        add("adx.rm." + mn, adx(mn, xop))
+
+    # MMX / SSE
+    def vec_rm(mn, xop, mask, letter, msize, fam, vex=0):
+        def fn(sh, kws):
+            return [mem_form("c02.%s.%sm" % (mn, letter), fam, mn, xop, vex, [("reg", mask, letter), ("mem", msize)], sh, None)]
+        return fn
+
+    def vec_mr(mn, xop, mask, letter, msize, fam, vex=0):
+        def fn(sh, kws):
+            return [mem_form("c02.%s.m%s" % (mn, letter), fam, mn, xop, vex, [("mem", msize), ("reg", mask, letter)], sh, None)]
+        return fn
+    packed = list(F.PACKED_MM_XMM.items())
+    for mn, xop in (packed if not quick else [("paddd", "XOP_PADDD")]):
+        if mn not in F.XMM_NO_MEM:
+            add("sse.rm." + mn, vec_rm(mn, xop, XMM, "x", "128", "sse.rm"))
+        add("mmx.rm." + mn, vec_rm(mn, xop, MM, "r", "64", "mmx.rm"))
+    for mn, xop in (F.SSE_XMM.items() if not quick else []):
+        add("sse.rm." + mn, vec_rm(mn, xop, XMM, "x", "128", "sse.rm"))
+    if not quick:
+        add("sse.rm.movntdqa", vec_rm("movntdqa", "XOP_MOVNTDQA", XMM, "x", "128", "sse.rm"))
+        add("sse.rm.movd", vec_rm("movd", "XOP_MOVD", XMM, "x", "32", "sse.mov"))
+    add("sse.mr.movd", vec_mr("movd", "XOP_MOVD", XMM, "x", "32", "sse.mov"))
+    add("sse.rm.movq", vec_rm("movq", "XOP_MOVQ", XMM, "x", "64", "sse.mov"))
+    add("sse.mr.movq", vec_mr("movq", "XOP_MOVQ", XMM, "x", "64", "sse.mov"))
+    add("mmx.mr.movntq", vec_mr("movntq", "XOP_MOVNTQ", MM, "r", "64", "mmx.mr"))
+
+    # AVX
+    def avx_rvm(mn, xop, mask, letter, msize):
+        def fn(sh, kws):
+            return [mem_form("c02.%s.%s%sm" % (mn, letter, letter), "avx.rvm", mn, xop, 1,
+                             [("reg", mask, letter), ("reg", mask, letter), ("mem", msize)], sh, None)]
+        return fn
+    for mn, xop in (F.AVX_YMM_ONLY.items() if not quick else []):
+        add("avx.rvm." + mn, avx_rvm(mn, xop, YMM, "y", "256"))
+    for mn, xop in (F.AVX_BOTH.items() if not quick else [("vpaddd", "XOP_PADDD")]):
+        add("avx.rvm.y." + mn, avx_rvm(mn, xop, YMM, "y", "256"))
+        add("avx.rvm.x." + mn, avx_rvm(mn, xop, XMM, "x", "128"))
+    for mn, xop in (F.AVX_MOV.items() if not quick else [("vmovdqu", "XOP_MOVDQU")]):
+        add("avx.rm.y." + mn, vec_rm(mn, xop, YMM, "y", "256", "avx.rm", 1))
+        add("avx.mr.y." + mn, vec_mr(mn, xop, YMM, "y", "256", "avx.mr", 1))
+        if not quick:
+            add("avx.rm.x." + mn, vec_rm(mn, xop, XMM, "x", "128", "avx.rm", 1))
+        add("avx.mr.x." + mn, vec_mr(mn, xop, XMM, "x", "128", "avx.mr", 1))
+
+    def perm2(mn, xop):
+        def fn(sh, kws):
+            return [mem_form("c02.%s.yymi" % mn, "avx.rvmi", mn, xop, 1, [("reg", YMM, "y"), ("reg", YMM, "y"), ("mem", "256"), ("imm8",)], sh, None)]
+        return fn
+    for mn, xop in (F.AVX_PERM2.items() if not quick else [("vperm2i128", "XOP_PERM2I128")]):
+        add("avx.rvmi." + mn, perm2(mn, xop))
+    return cls
+
+
+def c02_families(quick):
+    out = []
+    shapes = quick_shapes() if quick else all_shapes()
+    for cname, fn in c02_classes(quick):
+        for i, sh in enumerate(shapes):
+            # keyword variants: thorough -> all four on every shape; quick -> rotate one keyword over the shapes
+            if quick:
+                kws = [["byte", "word", "dword", "qword"][i % 4]] if i % 3 == 0 else []
+            else:
+                kws = ["byte", "word", "dword", "qword"]
+            out += fn(sh, kws)
+    return out
+
+
+# ---------------------------------------------------------------------------
+# C03: immediates
+
+SPELLINGS = [("hex", False), ("hex", True), ("dec", False), ("dec", True), ("hex16", False)]
+
+
+def imm_num(sk, style, neg):
+    """bind a literal; returns (k, C expr of the written 64-bit pattern)"""
+    k = sk.num()
+    w = "(0ul - N%d)" % k if neg else "N%d" % k
+    return k, w
+
+
+def c03_dest_variants(quick):
+    """destination kinds: ('reg', mask) or ('mem', kw, shape)"""
+    v = [("reg", None)]
+    if quick:
+        v += [("mem", "qword", MemShape("b+i*s", 2)), ("mem", "byte", MemShape("b")), ("mem", "dword", MemShape("b+d")),
+              ("mem", "word", MemShape("b-d"))]
+    else:
+        for kw in ("byte", "word", "dword", "qword"):
+            for sh in (MemShape("b"), MemShape("b+d"), MemShape("b+i*s-d", 4), MemShape("s*i", 8), MemShape("d")):
+                v.append(("mem", kw, sh))
+    return v
+
+
+def c03_imm_form(mn, xop, dest, style, neg, kind):
+    """kind: alu (imm8s/imm16/32, sext for 64), test (no imm8s; same value rule), movi, shift (count), """
+    dname = "r" if dest[0] == "reg" else "m_%s_%s" % (dest[1], dest[2].label())
+    sk = Skel("c03.%s.%s.%s%s" % (mn, dname, "neg" if neg else "", style), "imm." + kind, mn)
+    sk.t(mn + " ")
+    if dest[0] == "reg":
+        mask = GALL
+        r = sk.reg(mask)
+        sk.treg(r)
+        size = "vf_regsize(R%d)" % r
+        memvar = None
+    else:
+        memvar, b, ix = add_mem(sk, dest[2], dest[1])
+        mem_validity(sk, memvar, dest[2])
+        size = str(KW_BITS[dest[1]])
+    sk.t(", ")
+    k, w = imm_num(sk, style, neg)
+    sk.tnum(k, style, neg)
+    sk.decl.append("unsigned long W = %s; int OSZ = %s;" % (w, size))
+    chk_op(sk, xop)
+    chk_nopd(sk, 2)
+    if dest[0] == "reg":
+        chk_reg(sk, 0, 0)
+    else:
+        chk_mem(sk, 0, memvar, "OSZ")
+    sk.rexw = "OSZ == 64"
+    if kind in ("alu", "test", "movm"):
+        sk.decl.append("ASSUME(vf_representable(W, OSZ, 1));")
+        sk.post.append('CHECK(D.osize == OSZ, "operand size as written");')
+        sk.post.append('CHECK(vf_chk_imm(&D.opd[1], W, OSZ), "immediate field, after the architecture\'s extension, equals the written value at the operand width");')
+    elif kind == "shift":
+        sk.decl.append("ASSUME(W <= 0xff && W != 1);")
+        sk.post.append('CHECK(D.osize == OSZ, "operand size as written");')
+        sk.post.append('CHECK(D.opd[1].kind == XK_IMM && (D.opd[1].imm & 0xff) == (long)W, "shift count equals the written value");')
+    return sk
+
+
+def c03_mov_r64(style, neg):
+    """mov r64, v: the architectural effect on the 64-bit register is v, in
+    whichever of the three encodings the mode selects"""
+    sk = Skel("c03.mov.r64.%s%s" % ("neg" if neg else "", style), "imm.mov64", "mov")
+    r = sk.reg(G64)
+    k, w = imm_num(sk, style, neg)
+    sk.t("mov ").treg(r).t(", ").tnum(k, style, neg)
+    sk.decl.append("unsigned long W = %s;" % w)
+    sk.want = "XOP_MOV"
+    sk.post.append('CHECK(D.op == XOP_MOV && D.nopd == 2 && D.opd[0].kind == XK_REG && D.opd[0].num == R0.num, "mov to the written register number");')
+    sk.post.append('CHECK(D.opd[1].kind == XK_IMM, "immediate source");')
+    sk.post.append('unsigned long effect = D.opd[0].rc == RC_GPR64 ? (unsigned long)D.opd[1].imm '
+                   ': (unsigned long)(uint32_t)D.opd[1].imm;')
+    sk.post.append('CHECK(D.opd[0].rc == RC_GPR64 || D.opd[0].rc == RC_GPR32, "destination is the 64-bit register or its zero-extending 32-bit half");')
+    sk.post.append('CHECK(effect == W, "executing the emitted mov leaves the written 64-bit value in the register");')
+    sk.meta["mov64"] = True
+    return sk
+
+
+def c03_mov_small(style, neg):
+    sk = Skel("c03.mov.r.%s%s" % ("neg" if neg else "", style), "imm.mov", "mov")
+    r = sk.reg("(CM_GPR8ALL | CM(RC_GPR16) | CM(RC_GPR32))")
+    k, w = imm_num(sk, style, neg)
+    sk.t("mov ").treg(r).t(", ").tnum(k, style, neg)
+    sk.decl.append("unsigned long W = %s; int OSZ = vf_regsize(R0);" % w)
+    sk.decl.append("ASSUME(vf_representable(W, OSZ, 0));")
+    chk_op(sk, "XOP_MOV"); chk_nopd(sk, 2); chk_reg(sk, 0, r)
+    sk.post.append('CHECK(D.osize == OSZ, "operand size as written");')
+    sk.post.append('CHECK(vf_chk_imm(&D.opd[1], W, OSZ), "immediate equals the written value at the operand width");')
+    return sk
+
+
+def c03_families(quick):
+    out = []
+    spell = [("hex", False), ("hex", True), ("dec", False)] if quick else SPELLINGS
+    dests = c03_dest_variants(quick)
+    alu = list(F.ALU.items())
+    for mn, xop in alu:
+        for d in (dests if (not quick or mn in ("add", "and", "cmp")) else dests[:2]):
+            for st, neg in (spell if (not quick or mn in ("add", "and")) else spell[:2]):
+                out.append(c03_imm_form(mn, xop, d, st, neg, "alu"))
+    for d in dests:
+        for st, neg in spell:
+            out.append(c03_imm_form("test", "XOP_TEST", d, st, neg, "test"))
+            if d[0] == "mem":
+                out.append(c03_imm_form("mov", "XOP_MOV", d, st, neg, "movm"))
+    for st, neg in SPELLINGS:
+        out.append(c03_mov_r64(st, neg))
+        out.append(c03_mov_small(st, neg))
+    shifts = list(F.SHIFT_IMM.items())
+    for mn, xop in shifts:
+        for d in (dests if (not quick or mn == "shl") else dests[:2]):
+            out.append(c03_imm_form(mn, xop, d, "hex", False, "shift"))
+            if not quick or mn == "shl":
+                out.append(c03_imm_form(mn, xop, d, "dec", False, "shift"))
+    out.append(c03_imm_form("ror", "XOP_ROR", ("reg", None), "hex", False, "shift"))
+    # three-operand forms with imm
+    for st, neg in spell:
+        sk = Skel("c03.imul.rri.%s%s" % ("neg" if neg else "", st), "imm.imul", "imul")
+        a = sk.reg(GV); b = sk.reg(GV); same_size(sk, a, b)
+        k, w = imm_num(sk, st, neg)
+        sk.t("imul ").treg(a).t(", ").treg(b).t(", ").tnum(k, st, neg)
+        sk.decl.append("unsigned long W = %s; int OSZ = vf_regsize(R0);" % w)
+        sk.decl.append("ASSUME(vf_representable(W, OSZ, 1));")
+        chk_op(sk, "XOP_IMUL"); chk_nopd(sk, 3); chk_reg(sk, 0, a); chk_reg(sk, 1, b); chk_osize_reg(sk, a)
+        sk.post.append('CHECK(vf_chk_imm(&D.opd[2], W, OSZ), "immediate equals the written value at the operand width");')
+        out.append(sk)
+        for sh in ([MemShape("b+i*s+d", 4)] if quick else [MemShape("b"), MemShape("b+i*s+d", 4), MemShape("s*i", 2)]):
+            sk = Skel("c03.imul.rmi.%s.%s%s" % (sh.label(), "neg" if neg else "", st), "imm.imul", "imul")
+            a = sk.reg(GV)
+            sk.t("imul ").treg(a).t(", ")
+            mv, b_, i_ = add_mem(sk, sh, None)
+            mem_validity(sk, mv, sh)
+            k, w = imm_num(sk, st, neg)
+            sk.t(", ").tnum(k, st, neg)
+            sk.decl.append("unsigned long W = %s; int OSZ = vf_regsize(R0);" % w)
+            sk.decl.append("ASSUME(vf_representable(W, OSZ, 1));")
+            chk_op(sk, "XOP_IMUL"); chk_nopd(sk, 3); chk_reg(sk, 0, a); chk_mem(sk, 1, mv, "OSZ"); chk_osize_reg(sk, a)
+            sk.post.append('CHECK(vf_chk_imm(&D.opd[2], W, OSZ), "immediate equals the written value at the operand width");')
+            out.append(sk)
+        # push imm (64-bit push, imm8/imm32 sign-extended)
+        sk = Skel("c03.push.i.%s%s" % ("neg" if neg else "", st), "imm.push", "push")
+        k, w = imm_num(sk, st, neg)
+        sk.t("push ").tnum(k, st, neg)
+        sk.decl.append("unsigned long W = %s;" % w)
+        sk.decl.append("ASSUME(vf_representable(W, 64, 1));")
+        chk_op(sk, "XOP_PUSH"); chk_nopd(sk, 1)
+        sk.post.append('CHECK(D.osize == 64, "64-bit push");')
+        sk.post.append('CHECK(vf_chk_imm(&D.opd[0], W, 64), "pushed immediate, sign-extended, equals the written value");')
+        out.append(sk)
+    for mn, xop in (("shld", "XOP_SHLD"), ("shrd", "XOP_SHRD")):
+        for st in ("hex", "dec"):
+            sk = Skel("c03.%s.rri.%s" % (mn, st), "imm.shld", mn)
+            a = sk.reg(GV); b = sk.reg(GV); same_size(sk, a, b)
+            k, w = imm_num(sk, st, False)
+            sk.t(mn + " ").treg(a).t(", ").treg(b).t(", ").tnum(k, st, False)
+            sk.decl.append("ASSUME(N%d <= 0xff);" % k)
+            chk_op(sk, xop); chk_nopd(sk, 3); chk_reg(sk, 0, a); chk_reg(sk, 1, b); chk_osize_reg(sk, a)
+            sk.post.append('CHECK(D.opd[2].kind == XK_IMM && D.opd[2].immw == 8 && (D.opd[2].imm & 0xff) == (long)N%d, "8-bit count equals the written value");' % k)
+            out.append(sk)
+    for st in ("hex", "dec"):
+        sk = Skel("c03.xabort.i.%s" % st, "imm.xabort", "xabort")
+        k, w = imm_num(sk, st, False)
+        sk.t("xabort ").tnum(k, st, False)
+        sk.decl.append("ASSUME(N%d <= 0xff);" % k)
+        chk_op(sk, "XOP_XABORT"); chk_nopd(sk, 1)
+        sk.post.append('CHECK(D.opd[0].kind == XK_IMM && (D.opd[0].imm & 0xff) == (long)N%d, "8-bit immediate equals the written value");' % k)
+        out.append(sk)
+    return out
+
+
+# ---------------------------------------------------------------------------
+# C05: relative branches, indirect branches
+
+def c05_rel(mn, xop, kwd, style, neg, has_rel8, has_rel32):
+    sk = Skel("c05.%s.%s.%s%s" % (mn, kwd or "nokw", "neg" if neg else "", style), "branch.rel", mn)
+    k = sk.num()
+    sk.t(mn + " ")
+    if kwd:
+        sk.t(kwd + " ")
+    sk.tnum(k, style, neg)
+    sk.decl.append("unsigned long W = %s; long d = (long)W;" % ("(0ul - N%d)" % k if neg else "N%d" % k))
+    # the written value is the mathematical integer +-N; beyond 2^63 the two's complement reading differs: keep |d| < 2^62
+    sk.decl.append("ASSUME(N%d < (1ul << 62));" % k)
+    in8 = "(d >= -128 && d <= 127)"
+    in32 = "(d >= -2147483648l && d <= 2147483647l)"
+    acc = []
+    acc.append("  if (rc == EXIT_SUCCESS) {")
+    acc.append('    CHECK(end > start && end - start <= 15, "offset advanced by the instruction length");')
+    acc.append("    struct xinsn D;")
+    acc.append("    int n = x86dec_want(vf_buf + start, end - start, &D, %s);" % xop)
+    acc.append('    CHECK(n == end - start, "the emitted bytes are exactly one instruction of the written operation");')
+    acc.append("    if (n == end - start) {")
+    acc.append('      CHECK(D.op == %s && D.nopd == 1 && D.opd[0].kind == XK_REL, "relative form of the written operation");' % xop)
+    acc.append('      CHECK(D.opd[0].imm == d, "displacement field equals the written displacement (no wrap-around)");')
+    if kwd == "long":
+        acc.append('      CHECK(D.opd[0].immw == 32, "long forces the rel32 form");')
+    if kwd == "short":
+        acc.append('      CHECK(D.opd[0].immw == 8, "short selects the rel8 form");')
+    acc.append("    }")
+    acc.append("    vf_frame_check(al, start, end, rc);")
+    acc.append("  } else {")
+    acc.append('    CHECK(rc == EXIT_FAILURE, "documented return value");')
+    # when must it be accepted?
+    must = None
+    if kwd is None:
+        must = in32 if has_rel32 else in8
+    elif kwd == "long":
+        must = in32 if has_rel32 else None
+    elif kwd == "short":
+        must = in8 if has_rel8 else None
+    if must:
+        acc.append('    CHECK(!(%s), "a representable displacement is accepted");' % must)
+    acc.append("    vf_frame_check(al, start, start, rc);")
+    acc.append("  }")
+    # when must it be rejected?
+    if kwd == "short" or not has_rel32:
+        acc.append('  if (!%s) CHECK(rc == EXIT_FAILURE, "rel8 would wrap: the line is rejected");' % in8)
+    sk.accept = "\n".join(acc)
+    sk.want = xop
+    return sk
+
+
+def c05_families(quick):
+    out = []
+    spell = [("hex", False), ("hex", True), ("dec", False), ("dec", True)]
+    ops = [("jmp", "XOP_JMP", True, True)] + [("j" + s, "(XOP_JCC + %d)" % F.CC[s], True, True) for s in F.JCC_SUFFIXES + ["be"]]
+    for mn, xop, r8, r32 in ops:
+        for kwd in (None, "short", "long"):
+            sp = spell if (not quick or mn in ("jmp", "jne", "jbe")) else spell[:2]
+            for st, neg in sp:
+                out.append(c05_rel(mn, xop, kwd, st, neg, r8, r32))
+    for st, neg in spell:
+        out.append(c05_rel("call", "XOP_CALL", None, st, neg, False, True))
+        out.append(c05_rel("jrcxz", "XOP_JRCXZ", None, st, neg, True, False))
+        out.append(c05_rel("jrcxz", "XOP_JRCXZ", "short", st, neg, True, False))
+        out.append(c05_rel("xbegin", "XOP_XBEGIN", None, st, neg, False, True))
+    # indirect: register
+    for mn, xop in (("jmp", "XOP_JMP"), ("call", "XOP_CALL")):
+        sk = Skel("c05.%s.r" % mn, "branch.ind", mn)
+        a = sk.reg(G64)
+        sk.t(mn + " ").treg(a)
+        chk_op(sk, xop); chk_nopd(sk, 1); chk_reg(sk, 0, a)
+        sk.post.append('CHECK(!D.far && D.osize == 64, "near indirect branch through a 64-bit register");')
+        out.append(sk)
+        shapes = quick_shapes() if quick else all_shapes()
+        for sh in shapes:
+            for kw in (None, "qword"):
+                if quick and kw and sh.kind not in ("b", "b+i*s+d"):
+                    continue
+                sk = mem_form("c05.%s.m" % mn, "branch.ind", mn, xop, 0, [("mem", "64")], sh, kw)
+                sk.post.append('CHECK(!D.far, "near indirect branch");')
+                out.append(sk)
+            fars = [("far", "80"), ("far qword", "80"), ("far dword", "48"), ("far word", "32")]
+            for kw, ms in (fars if not quick or sh.kind in ("b", "b+d", "b+i*s") else fars[:1]):
+                sk = mem_form("c05.%s.mfar" % mn, "branch.far", mn, xop, 0, [("mem", ms)], sh, kw)
+                sk.post.append('CHECK(D.far, "far indirect branch");')
+                out.append(sk)
+    return out
